@@ -73,9 +73,10 @@ def check_wrapper(ctx, m, g, kind):
                        ("tail_is_err", "fall through to an error")):
         if not d[flag]:
             ctx.violation("C03.b-deserialize", key + [flag], C.where(m, d["fn"]), what, "missing", STATEMENT, "GlueMessage::emit (Deserialize)")
-    want_order = ["value", "map", "len", "key", "attempts", "errlists", "fold", "truncate"]
-    if [s for s in d["seen"] if s in want_order] != want_order:
-        ctx.violation("C03.b-deserialize", key + ["order"], C.where(m, d["fn"]), want_order, d["seen"], STATEMENT)
+    # the guards must precede the routing attempts; what follows is the construction of the error (free form)
+    want_prefix = ["value", "map", "len", "key", "attempts"]
+    if [x for x in d["seen"] if x in want_prefix] != want_prefix or d["seen"][:5] != want_prefix:
+        ctx.violation("C03.b-deserialize", key + ["order"], C.where(m, d["fn"]), want_prefix + ["<error construction>"], d["seen"], STATEMENT)
     att = d["attempts"]
     for p in parts:
         mine = [a for a in att if a["variant"] == p["variant"]]
@@ -116,27 +117,30 @@ def check_wrapper(ctx, m, g, kind):
         ctx.violation("C03.e-no-panic", key + ["other-sites"], C.where(m, d["fn"]), "no index / division / panic macro", others, STATEMENT)
     subs = [s for s in d["panic_sites"] if s[0] == "arith-"]
     if subs:
-        tr = d.get("truncate")
-        ok = False
-        if tr is not None and len(subs) == 1:
-            arg = A.strip_expr(tr["args"][0])
-            if arg["k"] == "binary" and arg["op"] == "-" and A.strip_expr(arg["right"]).get("v") is not None:
-                k = int(A.strip_expr(arg["right"])["v"])
-                left = A.strip_expr(arg["left"])
-                lits = d.get("fold_init_macros") or []
-                suffix_ok = False
-                for mtxt in lits:
-                    # first literal of the format_args! invocation
-                    import re
-                    mm = re.match(r'\s*"((?:[^"\\]|\\.)*)"', mtxt)
-                    if mm:
-                        lit = mm.group(1)
-                        suffix = lit.rsplit("}", 1)[-1]
-                        suffix_ok = len(suffix) >= k
-                ok = suffix_ok and left["k"] == "mcall" and left["method"] == "len" and A.path_ids(left["recv"]) == [d.get("err_msg_name")] \
-                    and A.path_ids(tr["recv"]) == [d.get("err_msg_name")]
-        if not ok:
-            ctx.violation("C03.e-no-panic", key + ["subtraction"], C.where(m, d["fn"]), "len() - k only where the folded prefix ends in a literal of >= k bytes", subs, STATEMENT)
+        import re
+        sub_nodes = A.find_all(d["fn"]["body"], lambda n: isinstance(n, dict) and n.get("x") and n.get("k") == "binary" and n["op"] == "-")
+        for sn in sub_nodes:
+            left = A.strip_expr(sn["left"])
+            right = A.strip_expr(sn["right"])
+            ok = False
+            why = "not of the form <string>.len() - <literal>"
+            if left["k"] == "mcall" and left["method"] == "len" and right.get("v") is not None and A.path_ids(left["recv"]):
+                k = int(right["v"])
+                var = A.path_ids(left["recv"])[0]
+                init = d["lets_after"].get(var)
+                why = f"`{var}` is not built by a fold whose initial value ends in a literal of >= {k} bytes, so `{var}.len() - {k}` can underflow (panic) when every part's name list is empty"
+                if init is not None and init["k"] == "mcall" and init["method"] == "fold" and init["args"]:
+                    macs = [A.tt_flat(mm["tt"]) for mm in A.find_all(init["args"][0], lambda n: isinstance(n, dict) and n.get("k") == "macro")]
+                    for mtxt in macs:
+                        mm = re.match(r'\s*"((?:[^"\\]|\\.)*)"', mtxt)
+                        if mm and len(mm.group(1).rsplit("}", 1)[-1]) >= k:
+                            ok = True
+                    lits = [n["v"] for n in A.find_all(init["args"][0], lambda n: isinstance(n, dict) and n.get("x") and n.get("k") == "lit" and n.get("lk") == "str")]
+                    if not macs and lits and len(lits[-1]) >= k:
+                        ok = True
+            if not ok:
+                ctx.violation("C03.e-no-panic", key + ["subtraction"], C.where(m, d["fn"]), "length arithmetic only where it cannot underflow", why, STATEMENT,
+                              "GlueMessage::emit (error text of the unknown-name path)")
 
 
 def run(ctx):
